@@ -723,6 +723,34 @@ func lex1(c *Ctx) {
 			return
 		}
 		good := false
+		// len(text) compared with a constant so that len(text) >= k
+		for _, cd := range ir.DominatingConds(sl.Block()) {
+			bo, isBo := cd.V.(*ssa.BinOp)
+			if !isBo {
+				continue
+			}
+			lc, isCall := bo.X.(*ssa.Call)
+			if !isCall {
+				continue
+			}
+			if bi, isB := lc.Call.Value.(*ssa.Builtin); !isB || bi.Name() != "len" || lc.Call.Args[0] != sl.X {
+				continue
+			}
+			lim, isC := ir.ConstInt(bo.Y)
+			if !isC {
+				continue
+			}
+			// the fact excludes every length below k
+			excl := true
+			for n := int64(0); n < k; n++ {
+				if t, okT := lenCmp(bo.Op, n, lim); !okT || t == cd.Want {
+					excl = false
+				}
+			}
+			if excl {
+				good = true
+			}
+		}
 		for _, cd := range ir.DominatingConds(sl.Block()) {
 			bo, isBo := cd.V.(*ssa.BinOp)
 			if !isBo || bo.Op != token.GTR || !cd.Want {
